@@ -53,9 +53,11 @@ class GNet(nn.Module):
             elif op == 'add':
                 r = v[ins[1]] + v[ins[2]]
             elif op == 'cat':
-                r = torch.cat([v[j] for j in ins[1]], dim=1)
+                ts = [v[j] for j in ins[1]]
+                var = ins[2] if len(ins) > 2 else None      # the features axis named in three ways
+                r = torch.cat(ts, dim=1) if var is None else (torch.cat(ts, axis=1) if var == 'axis' else torch.cat(ts, var))
             elif op == 'tcat':
-                r = torch.cat([v[j] for j in ins[1]], dim=2)
+                r = torch.cat([v[j] for j in ins[1]], dim=2 if len(ins) < 3 else ins[2])
             elif op == 'flatf':
                 se = ins[2] if len(ins) > 2 else (1,)
                 r = torch.flatten(v[ins[1]], *se) if se[0] != 'method' else v[ins[1]].flatten(*se[1:])
@@ -179,13 +181,14 @@ def gen_program(rng, dim, opts=None):
                 if rng.random() < .15:
                     lst.append(rng.choice(lst))     # the same tensor twice: torch.cat((a, b, a), 1)
                 rng.shuffle(lst)
-                cur = b.add(('cat', lst), sum(b.ch[j] for j in lst), b.sp[cur])
+                var = rng.choice([None, None, 'axis', 1 - (dim + 2)])     # dim=1, axis=1, or counted from the end
+                cur = b.add(('cat', lst) if var is None else ('cat', lst, var), sum(b.ch[j] for j in lst), b.sp[cur])
             else:
                 cur = b.conv(cur)
         elif r < .92 and o.get('tcat', True) and dim == 1 and not b.taint[cur]:
             # time-axis concat of two branches sharing one masker
             br = b.conv(cur, cout=b.ch[cur], keep_size=True, k_choices=[1, 3])
-            cur = b.add(('tcat', [cur, br]), b.ch[cur], 2 * b.sp[cur])
+            cur = b.add(('tcat', [cur, br]) if rng.random() < .5 else ('tcat', [cur, br], -1), b.ch[cur], 2 * b.sp[cur])
         else:
             if b.sp[cur] >= 4:
                 m = nn.AvgPool1d(2) if dim == 1 else (nn.MaxPool2d(2) if rng.random() < .5 else nn.AvgPool2d(2))
